@@ -266,14 +266,19 @@ def strace(case, out, args, inject=None, stdin=None, timeout=60):
 class Stepper:
     """a process under strace that stops after every system call of SET; `advance` = one scheduling decision"""
 
-    def __init__(self, case, args, closes=True):
+    def __init__(self, case, args, closes=True, stdin_text=None):
         self.case = case
         self.out = f"{case.dir}/st{next(_counter)}.txt"
         open(self.out, "w").close()
         self.stdout = open(self.out + ".o", "w+")
+        self.stdin = None
+        if stdin_text is not None:
+            with open(self.out + ".i", "w") as f:
+                f.write(stdin_text)
+            self.stdin = open(self.out + ".i")
         self.p = subprocess.Popen(["strace", "-f", "-o", self.out, "-e", f"trace={SET}", "-e", f"inject={STOP_SET}:signal=SIGSTOP:when=1+",
                                    LIFE, args[0], case.cfg] + [str(a) for a in args[1:]], stdout=self.stdout, stderr=subprocess.DEVNULL,
-                                  start_new_session=True)
+                                  stdin=self.stdin if self.stdin else subprocess.DEVNULL, start_new_session=True)
         self.canon = Canon(case, closes)
         self.f = open(self.out)
         self.buf = ""
@@ -364,7 +369,7 @@ class Stepper:
     def destroy(self):
         if self.p.poll() is None:
             self.kill()
-        for h in (self.f, self.stdout):
+        for h in (self.f, self.stdout, self.stdin):
             try:
                 h.close()
             except Exception:
@@ -663,6 +668,72 @@ def check_cleaners(ctx, quick):
     report(ctx, "2..4 concurrent cleaners", n, bad, t0)
 
 
+def retry_after_dead_cleaner(ctx, kl, kw):
+    """dead node; process L (which will try twice) is taken kl model steps into its first clean-up attempt, then cleaner W is taken kw steps into its
+    own and stopped; L finishes its first attempt, W is killed, the SAME process L tries again. The model knows no process-local memory: L's second
+    attempt is a fresh cleaner (ProcessCleaner / ProcessMonitor keep a process-local cache of states; it must be transparent)."""
+    c = Case()
+    try:
+        dead_node_with_tag(c)
+        l = Stepper(c, ["clean-twice"], stdin_text="go\n")
+        w = Stepper(c, ["clean"])
+        l.advance(kl)
+        w.advance(kw)
+        for _ in range(400):
+            if any(x.startswith("clean0") for x in l.output()) or not l.alive():
+                break
+            l.cont()
+        w.kill()
+        l.finish()
+
+        def res(lines, tag):
+            r = [x for x in lines if x.startswith(tag)]
+            if not r:
+                return "?"
+            xs = [x for x in r[0].split(" ")[1:] if x]
+            if not xs:
+                return "none"
+            v = xs[0].split(":", 1)[1]
+            return "none" if v.startswith("not-dead") else v
+        o = l.output()
+        impl = [res(o, "clean0"), res(o, "clean1")]
+        left = c.ls()
+        ml = ["reset", "spawn o owner 0 0", "run o", "kill o", "tag final", "spawn c1 cleaner 2", "spawn c0 cleaner 3"]
+        ml += ["step c1"] * kl + ["step c0"] * kw + ["run c1"]
+        n1 = len(ml)
+        ml += ["show c1", "kill c0", "spawn c2 cleaner 4", "run c2"]
+        n2 = len(ml)
+        ml += ["show c2", "ls"]
+        out = model(ml)
+        mod = [mshow(out[n1])["clean"], mshow(out[n2])["clean"]]
+        mleft = ",".join(sorted({re.split(r"[:=]", x)[0] for x in out[-1].split(" ") if not x.startswith("(")} - {"-"})) or "-"
+        return impl, mod, ",".join(sorted(left.split(","))) if left != "-" else "-", mleft
+    finally:
+        c.cleanup()
+
+
+def check_retries(ctx, quick):
+    t0 = time.time()
+    n = bad = 0
+    rng = random.Random(ctx.seed + 5)
+    # (steps of the retrying process before the other cleaner starts, steps of the other cleaner before it is killed); 24 = `setlk ol` done
+    pairs = [(0, 24), (0, 30), (23, 24), (23, 27), (23, 31), (12, 24)]
+    if not quick:
+        pairs += [(kl, kw) for kl in (0, 5, 18, 20, 22, 23) for kw in range(20, 40, 2)]
+        pairs += [(rng.randrange(0, 24), rng.randrange(1, 40)) for _ in range(30)]
+    for kl, kw in pairs:
+        impl, mod, left, mleft = retry_after_dead_cleaner(ctx, kl, kw)
+        n += 1
+        ctx.evaluations += 1
+        ctx.count("interleave.retry")
+        ctx.distinct.add(("retry", kl, kw, tuple(impl)))
+        if impl != mod or left != mleft:
+            bad += 1
+            mismatch(ctx, "interleave:retry-after-dead-cleaner", f"process L {kl} steps into its clean-up, cleaner W killed after {kw} steps, L finishes and tries again: "
+                     f"implementation {impl} left {left}, model {mod} left {mleft}", dict(kl=kl, kw=kw, impl=impl, model=mod, impl_left=left, model_left=mleft))
+    report(ctx, "clean-up retried by the same process after the other cleaner died", n, bad, t0)
+
+
 # ------------------------------------------------------------------------------------------------
 # refuted statements: witnesses replayed on the implementation in every run
 
@@ -895,6 +966,7 @@ def run(ctx):
             check_kill_points(ctx, quick)
             check_interleavings(ctx, quick)
             check_cleaners(ctx, quick)
+            check_retries(ctx, quick)
             replay_findings(ctx)
         finally:
             for d in glob.glob(f"/tmp/vl{os.getpid()}x*"):
